@@ -15,6 +15,8 @@ RESERVED = ["COMMENT", "INCLUDE", "STRINGLITERAL", "EXPRESSION", "_variables", "
 # characters str.splitlines() treats as line boundaries although no reader stage does (and `\s` matches them)
 LINESEPS = ["\x0b", "\x0c", "\x1c", "\x1d", "\x1e", "\x85", "\u2028", "\u2029"]
 CODECS = ["latin-1", "utf-16", "ascii", "cp1252", "utf-8", "utf-8-sig", "iso8859-15", "cp437"]
+# words other dictionary dialects (OpenFOAM, YAML, INI) read as switches; for dictIO they are ordinary strings
+SWITCH_WORDS = ["yes", "no", "y", "n", "t", "f", "Yes", "NO", "enabled", "disabled", "nil", "NaN", "Inf", "undefined", "void", "~"]
 _VOCAB: list[str] | None = None
 
 
@@ -194,7 +196,7 @@ def text(rng: random.Random, cls: str | None = None) -> str:
         w = word(rng, 5)
         return w + rng.choice(["", " "]) + rng.choice(LINESEPS) + rng.choice(["", " "]) + word(rng, 5)
     if cls == "vocab":
-        return rng.choice(source_vocab() + CODECS)
+        return rng.choice(source_vocab() + CODECS) if rng.random() < 0.7 else rng.choice(SWITCH_WORDS)
     if cls == "punct":
         return "".join(rng.choice("=#%&!?*@^~|+-_.") for _ in range(rng.randint(1, 4))) + word(rng, 3)
     raise ValueError(cls)
